@@ -4,7 +4,7 @@
 # (3) the existing ipa-core lib tests pass with the change (only the demo tests may fail). Writes seeded/<id>/verify.log
 ID=$1; WT=$2; OUT=/verif/seeded/$ID/verify.log
 export CARGO_TARGET_DIR=$WT/target CARGO_NET_OFFLINE=true CARGO_PROFILE_DEV_DEBUG=0 CARGO_PROFILE_TEST_DEBUG=0
-cd $WT && git checkout -q -- . && git clean -fdq -e target -e seeded_out >/dev/null 2>&1
+cd $WT && git reset -q --hard HEAD && git clean -fdq -e target -e seeded_out >/dev/null 2>&1
 git apply /verif/seeded/$ID/patch.diff && git apply /verif/seeded/$ID/demo.diff || { echo "APPLY FAILED" > $OUT; exit 1; }
 {
 echo "== with seeded change: demo"; cargo test -p ipa-core --lib --offline seeded_demo -- --test-threads=4 2>&1 | grep -a "^test \|^test result" | tail -15
@@ -12,5 +12,5 @@ echo "== with seeded change: whole ipa-core lib suite"; cargo test -p ipa-core -
 git apply -R /verif/seeded/$ID/patch.diff
 echo "== without seeded change: demo"; cargo test -p ipa-core --lib --offline seeded_demo -- --test-threads=4 2>&1 | grep -a "^test \|^test result" | tail -15
 } > $OUT 2>&1
-git checkout -q -- . ; git clean -fdq -e target -e seeded_out >/dev/null 2>&1
+git reset -q --hard HEAD; git clean -fdq -e target -e seeded_out >/dev/null 2>&1
 echo "verify_seed $ID done"; tail -3 $OUT
